@@ -81,7 +81,7 @@ func C06(tier string) int {
 		Prop: "C06", Level: "model_checking", Scopes: []string{"c06-life", "c06-bigfree", "c06-fault", "c06-nested"},
 		Rule:        "breadth-first enumeration of all programs within the bound (writers with page-freeing bodies, readers of every age opening/closing before, between and during write transactions, rollbacks, failed commits (scope c06-fault: every single I/O failure of every commit) and what follows them, reopen with the other freelist backend / sync setting, nested bucket delete/move, a free list spanning several pages); every WriteAt issued to the data file is checked at the moment it is issued against the page sets (tree, overflow, freelist pages as decoded by boltfmt when that version was committed) of the newest committed state and of every open reader's state, and against the meta-slot rule; a state is a distinct exact state key",
 		Assumptions: []string{"page sets come from the independent decoder at commit time", "a write that leaves every byte of a protected page unchanged is counted, not flagged"},
-		Quick:       100 * time.Second, Thorough: 25 * time.Minute,
+		Quick:       100 * time.Second, Thorough: 10 * time.Minute,
 	}, tier)
 }
 
@@ -92,7 +92,7 @@ func C10(tier string) int {
 		Rule:        "breadth-first enumeration of all programs within the bound (overwrite-heavy write transactions, every pattern of up to 2 readers opening and closing between and during them, rollbacks, reopen; scope c10-readers: up to 3 readers of different ages opening and closing in every order between the transactions); oracle at every writer begin: no allocatable page belongs to a version an open reader or the newest state needs, and with no reader open nothing is left pending; after every commit with no reader open: pending pages are a subset of pages(previous version) minus pages(new version) and Stats agrees with the allocator",
 		Assumptions: []string{"page sets from the independent decoder", "the unbounded-growth clause is decided only up to the explored horizon (DESIGN.md 7): steady-state histories of 12 identical overwrite transactions must stop moving the high-water mark"},
 		Extra:       steadyState,
-		Quick:       100 * time.Second, Thorough: 25 * time.Minute,
+		Quick:       100 * time.Second, Thorough: 10 * time.Minute,
 	}, tier)
 }
 
@@ -105,6 +105,6 @@ func C12(tier string) int {
 		Extra: func(tier string, cov map[string]interface{}) []string {
 			return append(goldenCheck(tier, cov), bigFreelistFiles(tier, cov)...)
 		},
-		Quick: 100 * time.Second, Thorough: 25 * time.Minute,
+		Quick: 100 * time.Second, Thorough: 10 * time.Minute,
 	}, tier)
 }
